@@ -1588,9 +1588,19 @@ pub fn fault_workload(r: &mut Rng, w: u64, fault: Option<(&str, u64, &str)>) -> 
     let mut l = vec!["mode fault".to_string()];
     // timeouts differ per endpoint, also by more than a factor of two (the ping interval must follow
     // the *peer's* timeout)
-    let (ta, tb) = *r.pick(&[(1000u64, 1000u64), (2000, 1500), (10000, 400), (400, 10000), (3000, 1000), (1000, 2500)]);
-    l.push(format!("cfg A chunk=8 buf=16 maxdata=64 timeout={ta} sq=2 tq=2 rq=2"));
-    l.push(format!("cfg B chunk=8 buf=16 maxdata=64 timeout={tb} sq=2 tq=2 rq=2"));
+    let (mut ta, mut tb) = *r.pick(&[(1000u64, 1000u64), (2000, 1500), (10000, 400), (400, 10000), (3000, 1000), (1000, 2500)]);
+    if w == 99 && r.chance(1, 3) {
+        // idle connection with a timeout on one side only (0 = none): the side without a timeout must still send
+        // the keep-alive pings its peer needs
+        if r.bool() {
+            ta = 0;
+        } else {
+            tb = 0;
+        }
+    }
+    let tt = |t: u64| if t == 0 { "none".to_string() } else { t.to_string() };
+    l.push(format!("cfg A chunk=8 buf=16 maxdata=64 timeout={} sq=2 tq=2 rq=2", tt(ta)));
+    l.push(format!("cfg B chunk=8 buf=16 maxdata=64 timeout={} sq=2 tq=2 rq=2", tt(tb)));
     if let Some((wire, at, kind)) = fault {
         l.push(format!("wire {wire} faultafter={at} kind={kind}"));
         if kind == "stallboth" {
@@ -1608,7 +1618,7 @@ pub fn fault_workload(r: &mut Rng, w: u64, fault: Option<(&str, u64, &str)>) -> 
         l.push("send s1 A p1 0102030405".into());
         l.push("recvmsg r1 B p1".into());
         l.push("settle".into());
-        l.push(format!("advance {}", 37 * ta));
+        l.push(format!("advance {}", 37 * ta.max(400)));
         l.push("send s2 B p1 0a0b".into());
         l.push("recvmsg r2 A p1".into());
         l.push("settle".into());
